@@ -222,6 +222,35 @@ func ruleOrderStart(c *Ctx) {
 		}
 	}
 	if okGuard {
+		// with a panic in flight the named result can still be nil: a method
+		// call on it before the kill makes the cleanup itself panic, and the
+		// started process is left behind
+		var deref ast.Node
+		for _, m := range lg.Nodes {
+			for _, e := range m.Succs {
+				if !isRecEdge(e) {
+					continue
+				}
+				s4 := lg.Reach([]*Node{e.To}, func(x *Node) bool { return x == killN }, isErrEdge)
+				for x := range s4 {
+					if x.Ast == nil {
+						continue
+					}
+					for _, call := range callsIn(x.Ast) {
+						if se, ok := call.Fun.(*ast.SelectorExpr); ok && identObj(linfo, ast.Unparen(se.X)) == namedErr && deref == nil {
+							deref = call
+						}
+					}
+				}
+			}
+		}
+		if deref != nil {
+			c.R.Violate("R-ORDER/O3", p.Pos(deref), lit.Name, "kill reached when a panic is in flight", "a method of Start's named result err is called on a path from `recovered != nil` to runner.Kill on which err was not tested: with a panic in flight err is nil, the cleanup itself panics before the kill and the started process is left behind", nil)
+		} else {
+			c.R.Hold("R-ORDER/O3", p.Pos(killN.Ast), lit.Name, "kill reached when a panic is in flight", "no method of the (possibly nil) named result err is called between the recovered-panic test and runner.Kill", true)
+		}
+	}
+	if okGuard {
 		c.R.Hold("R-ORDER/O3", p.Pos(lit.Node()), lit.Name, "kill iff named err != nil or panic", "the deferred closure tests Start's named result err and recover(); either being non-nil leads to runner.Kill on the started runner", true)
 	} else {
 		c.R.Violate("R-ORDER/O3", p.Pos(lit.Node()), lit.Name, "kill iff named err != nil or panic", "the deferred cleanup does not kill the started runner whenever Start's named result err is non-nil or a panic is in flight (it must read the named result by identity and recover())", nil)
@@ -364,6 +393,43 @@ func ruleOrderO4(c *Ctx) {
 	if prodN == nil || drainN == nil {
 		c.R.Violate("R-ORDER/O4", p.Pos(f.Node()), f.Name, "stdout line producer and deferred drain", fmt.Sprintf("the goroutine sending stdout lines (%v) or the deferred goroutine draining the same channel (%v) was not found: after Start returns nobody receives the lines and the producer blocks", prodN != nil, drainN != nil), nil)
 		return
+	}
+	// the drain goroutine receives until the channel is closed: a return,
+	// break or goto out of its range loop leaves the producer without a
+	// receiver, and the plugin blocked on its stdout pipe
+	for _, cs := range ci.sites[f] {
+		if cs.Kind != "go" && cs.Kind != "defer" {
+			continue
+		}
+		for _, gl0 := range cs.Callees {
+			if gl0.Lit == nil {
+				continue
+			}
+			fns := []*Func{gl0}
+			for _, cs2 := range ci.sites[gl0] {
+				if cs2.Kind == "go" && len(cs2.Callees) == 1 && cs2.Callees[0].Lit != nil {
+					fns = append(fns, cs2.Callees[0])
+				}
+			}
+			for _, gl := range fns {
+				if gl == prodLit {
+					continue
+				}
+				ast.Inspect(gl.Body, func(x ast.Node) bool {
+					if fl, ok := x.(*ast.FuncLit); ok && fl.Body != gl.Body {
+						return false
+					}
+					if rs, ok := x.(*ast.RangeStmt); ok && isLinesCh(gl, rs.X) {
+						if early := earlyLoopExit(rs.Body); early != nil {
+							c.R.Violate("R-ORDER/O4", p.Pos(early), f.Name, "drain runs until the channel is closed", "the goroutine draining the stdout line channel leaves its range loop at this statement while the channel is still open: the producer blocks on its next send and the plugin on its stdout pipe", nil)
+						} else {
+							c.R.Hold("R-ORDER/O4", p.Pos(rs), f.Name, "drain runs until the channel is closed", "no return, break or goto leaves the range loop over the line channel", true)
+						}
+					}
+					return true
+				})
+			}
+		}
 	}
 	seen := g.ReachAfter(prodN, func(x *Node) bool { return drains[x] }, nil)
 	if _, bad := seen[g.Exit]; bad {
@@ -946,4 +1012,48 @@ func (p *Prog) producerAbandons(f, lit *Func, ch types.Object) (*Node, string) {
 		return nil, ""
 	}
 	return dn, "no drain goroutine: every send of a stdout line is an arm of a select whose other arm receives from a channel that only a defer of Start closes, and that defer is registered on every path from the producer's go statement to a return"
+}
+
+
+// earlyLoopExit returns a statement of a loop body that leaves the loop other
+// than by its condition: a return, a goto or break to a label outside the
+// body, or an unlabelled break that is not inside a nested breakable statement.
+func earlyLoopExit(body *ast.BlockStmt) ast.Node {
+	inner := map[string]bool{}
+	ast.Inspect(body, func(x ast.Node) bool {
+		if ls, ok := x.(*ast.LabeledStmt); ok {
+			inner[ls.Label.Name] = true
+		}
+		return true
+	})
+	var early ast.Node
+	var visit func(n ast.Node, breakable bool)
+	visit = func(n ast.Node, breakable bool) {
+		ast.Inspect(n, func(x ast.Node) bool {
+			if x == nil || early != nil {
+				return false
+			}
+			switch s := x.(type) {
+			case *ast.FuncLit:
+				return false
+			case *ast.ReturnStmt:
+				early = s
+			case *ast.BranchStmt:
+				switch {
+				case s.Label != nil && (s.Tok == token.GOTO || s.Tok == token.BREAK) && !inner[s.Label.Name]:
+					early = s
+				case s.Label == nil && s.Tok == token.BREAK && !breakable:
+					early = s
+				}
+			case *ast.ForStmt, *ast.RangeStmt, *ast.SwitchStmt, *ast.TypeSwitchStmt, *ast.SelectStmt:
+				if x != n {
+					visit(x, true)
+					return false
+				}
+			}
+			return true
+		})
+	}
+	visit(body, false)
+	return early
 }
